@@ -293,11 +293,16 @@ func scenarioWriters(name, logKind string, plans []writerPlan, withReader bool) 
 			})
 		}
 		check := func(s *scheduler) (string, string, string) {
+			// every oracle runs; the outcome lists all failing classes (a property looks at its own)
+			var fcls, fmsg, fknown []string
+			add := func(cls, msg, known string) {
+				fcls, fmsg, fknown = append(fcls, cls), append(fmsg, msg), append(fknown, known)
+			}
 			if cls, msg := checkStream(lg); msg != "" {
-				return cls, msg, ""
+				add(cls, msg, "")
 			}
 			if torn != 0 {
-				return "torn", fmt.Sprintf("a reader positioned on row %d saw columns a and b from different commits inside one callback", torn-1), ""
+				add("torn", fmt.Sprintf("a reader positioned on row %d saw columns a and b from different commits inside one callback", torn-1), "")
 			}
 			// C09: additive column: every delta exactly once
 			want := map[uint32]int64{}
@@ -321,7 +326,7 @@ func scenarioWriters(name, logKind string, plans []writerPlan, withReader bool) 
 				return nil
 			})
 			if bad != "" {
-				return "lost", bad, ""
+				add("lost", bad, "")
 			}
 			// order-sensitive merge: the emitted Puts of x form the running fold in logger order
 			cur := map[uint32]int64{}
@@ -330,6 +335,7 @@ func scenarioWriters(name, logKind string, plans []writerPlan, withReader bool) 
 			}
 			deltaOfTag := map[int64]int64{}
 			_ = deltaOfTag
+		chainLoop:
 			for _, sc := range lg.stream {
 				xs := sc.puts["x"]
 				ys := sc.puts["y"]
@@ -355,7 +361,8 @@ func scenarioWriters(name, logKind string, plans []writerPlan, withReader bool) 
 						}
 					}
 					if !okDelta {
-						return "chain", fmt.Sprintf("chunk %d commit %d: emitted x=%d at row %d is not merge(previous emitted value %d, a delta of a writer of that row): the logger order is not the apply order, or a merge was lost", sc.chunk, sc.id, xn, off, cur[off]), ""
+						add("chain", fmt.Sprintf("chunk %d commit %d: emitted x=%d at row %d is not merge(previous emitted value %d, a delta of a writer of that row): the logger order is not the apply order, or a merge was lost", sc.chunk, sc.id, xn, off, cur[off]), "")
+						break chainLoop
 					}
 					cur[off] = xn
 				}
@@ -372,8 +379,8 @@ func scenarioWriters(name, logKind string, plans []writerPlan, withReader bool) 
 				}
 				return nil
 			})
-			if finalBad != "" {
-				return "chain", finalBad, ""
+			if finalBad != "" && !containsStr(fcls, "chain") {
+				add("chain", finalBad, "")
 			}
 			// C06: a replica fed the stream converges
 			column.VerifSetYield(nil)
@@ -391,13 +398,13 @@ func scenarioWriters(name, logKind string, plans []writerPlan, withReader bool) 
 				}
 				return nil
 			})
-			if err := lg.replayInto(rep); err != nil {
-				rep.Close()
-				return "replica", "replaying the stream failed: " + err.Error(), ""
+			rerr := lg.replayInto(rep)
+			if rerr != nil {
+				add("replica", "replaying the stream failed: "+rerr.Error(), "")
 			}
 			pd, rd := dumpRows(c, schedCols), dumpRows(rep, schedCols)
 			rep.Close()
-			if pd != rd {
+			if rerr == nil && pd != rd {
 				// finding D16: channel logger + multi-chunk transaction + foreign commit in between
 				known := ""
 				if logKind == "channel" {
@@ -415,9 +422,18 @@ func scenarioWriters(name, logKind string, plans []writerPlan, withReader bool) 
 						known = "D16"
 					}
 				}
-				return "replica", fmt.Sprintf("replica differs from the quiescent primary\n   primary: %s\n   replica: %s", clip(pd, 300), clip(rd, 300)), known
+				add("replica", fmt.Sprintf("replica differs from the quiescent primary\n   primary: %s\n   replica: %s", clip(pd, 300), clip(rd, 300)), known)
 			}
-			return "", "", ""
+			if len(fcls) == 0 {
+				return "", "", ""
+			}
+			known := fknown[0]
+			for _, k := range fknown {
+				if k != known {
+					known = ""
+				}
+			}
+			return strings.Join(fcls, ","), strings.Join(fmsg, " || "), known
 		}
 		return check, func() { c.Close() }
 	}}
